@@ -30,54 +30,127 @@ RULES = ("TEN-4 element store X[i,j,k]=v: each index is the position, in the lis
 LISTS = {"state_list": "S", "action_list": "A", "observation_list": "O"}
 
 
+INDEX_MAP_OF = {"observation_index": "observation_list"}
+
+
+def _chain(S: Snips, e: ast.AST, fi: Optional[FunctionInfo] = None, at: Optional[ast.AST] = None) -> List[ast.AST]:
+    """e, then the defining expression of e when e is a local bound by plain assignment, and so on: a value may be named by a
+    temporary or written in place.  A local with several assignments is followed to the last one textually before `at`."""
+    out = [e]
+    seen = set()
+    while isinstance(e, ast.Name) and e.id not in seen:
+        seen.add(e.id)
+        d = S.defs.get(e.id)
+        if d is None and fi is not None and at is not None:
+            prev = [st for st in _stores_of(fi, e.id) if st.lineno < at.lineno]
+            last = max(prev, key=lambda st: st.lineno) if prev else None
+            if isinstance(last, ast.Assign) and len(last.targets) == 1 and isinstance(last.targets[0], ast.Name):
+                d = last.value
+        if d is None:
+            break
+        out.append(d)
+        e = d
+    return out
+
+
+def _resolve(S: Snips, e: ast.AST, fi: Optional[FunctionInfo] = None, at: Optional[ast.AST] = None) -> ast.AST:
+    return _chain(S, e, fi, at)[-1]
+
+
+def _entity(S: Snips, e: ast.AST) -> Optional[str]:
+    """the variable an expression denotes (aliases followed); None when it is not a plain variable."""
+    names = [x.id for x in _chain(S, e) if isinstance(x, ast.Name)]
+    return names[-1] if names else None
+
+
+def _is_var(S: Snips, e: ast.AST, name: Optional[str]) -> bool:
+    return name is not None and any(isinstance(x, ast.Name) and x.id == name for x in _chain(S, e))
+
+
+def _list_of(S: Snips, e: ast.AST) -> Optional[str]:
+    """the model list (`self.state_list`, ...) an expression denotes, directly or through a local bound to it."""
+    r = _resolve(S, e)
+    return r.attr if isinstance(r, ast.Attribute) and r.attr in LISTS else None
+
+
+def _enclosing_loops(fi: FunctionInfo, node: ast.AST) -> List[ast.For]:
+    return [n for n in fn_body_nodes(fi) if isinstance(n, ast.For) and any(node is x for x in ast.walk(n))]
+
+
+def _items_call(S: Snips, it: ast.AST) -> Optional[ast.Call]:
+    """the call D(...) when `it` is `D(...).items()`, each part written in place or named by a temporary."""
+    en = S.m("E_d.items()", it)
+    d = _resolve(S, en["d"]) if en is not None else None
+    return d if isinstance(d, ast.Call) else None
+
+
+def index_provenance(fi: FunctionInfo, S: Snips, store: ast.AST, e: ast.AST) -> Tuple[Optional[str], Optional[str]]:
+    """(list attribute, entity variable) such that the index expression `e` of `store` is the position of the entity in that list.
+    `e` is the position variable of an enclosing `for i, x in enumerate(L)`, or `L.index(x)`, or `M[x]` for an element -> position
+    map M -- each written in place or named by a temporary."""
+    if isinstance(e, ast.Name):
+        for lp in _enclosing_loops(fi, store):
+            if isinstance(lp.target, ast.Tuple) and len(lp.target.elts) == 2 and all(isinstance(t, ast.Name) for t in lp.target.elts) \
+                    and lp.target.elts[0].id == e.id:
+                en = S.m("enumerate(E_l)", lp.iter)
+                if en is not None and _list_of(S, en["l"]) is not None:
+                    return _list_of(S, en["l"]), lp.target.elts[1].id
+    r = _resolve(S, e, fi, store)
+    en = S.m("E_l.index(E_x)", r)
+    if en is not None and _list_of(S, en["l"]) is not None:
+        return _list_of(S, en["l"]), _entity(S, en["x"])
+    en = S.m("E_m[E_x]", r)
+    if en is not None and not isinstance(en["x"], (ast.Tuple, ast.Slice)):
+        mp = _resolve(S, en["m"])
+        if isinstance(mp, ast.Attribute) and "index" in mp.attr:
+            return INDEX_MAP_OF.get(mp.attr, mp.attr), _entity(S, en["x"])
+        dc = S.m("{e: i for i, e in enumerate(E_l)}", mp)
+        if dc is not None and _list_of(S, dc["l"]) is not None:
+            return _list_of(S, dc["l"]), _entity(S, en["x"])
+    return None, None
+
+
 def index_sources(fi: FunctionInfo, store: ast.AST) -> Dict[str, Tuple[str, str]]:
-    """index variable -> (list attribute, entity variable) for the variables visible at `store`."""
+    """index variable -> (list attribute, entity variable) for the index variables of `store`."""
+    S = Snips(fi)
     out: Dict[str, Tuple[str, str]] = {}
-    for n in fn_body_nodes(fi):
-        if isinstance(n, ast.For) and isinstance(n.target, ast.Tuple) and len(n.target.elts) == 2 and isinstance(n.iter, ast.Call) \
-                and isinstance(n.iter.func, ast.Name) and n.iter.func.id == "enumerate" and n.iter.args:
-            lst = n.iter.args[0]
-            if isinstance(lst, ast.Attribute) and lst.attr in LISTS and all(isinstance(e, ast.Name) for e in n.target.elts):
-                if any(store is x for x in ast.walk(n)):
-                    out[n.target.elts[0].id] = (lst.attr, n.target.elts[1].id)
-        if isinstance(n, ast.Assign) and isinstance(n.targets[0], ast.Name) and isinstance(n.value, ast.Call) \
-                and isinstance(n.value.func, ast.Attribute) and n.value.func.attr == "index" and isinstance(n.value.func.value, ast.Attribute) \
-                and n.value.func.value.attr in LISTS and len(n.value.args) == 1 and isinstance(n.value.args[0], ast.Name):
-            out[n.targets[0].id] = (n.value.func.value.attr, n.value.args[0].id)
-        if isinstance(n, ast.Assign) and isinstance(n.targets[0], ast.Name) and isinstance(n.value, ast.Subscript) \
-                and isinstance(n.value.value, ast.Name) and isinstance(n.value.slice, ast.Name):
-            # idx = some_index_map[entity]  (resolved by the caller when the map is known)
-            out.setdefault(n.targets[0].id, ("map:" + n.value.value.id, n.value.slice.id))
+    t = store.targets[0]
+    for e in (t.slice.elts if isinstance(t.slice, ast.Tuple) else [t.slice]):
+        if isinstance(e, ast.Name):
+            l, x = index_provenance(fi, S, store, e)
+            if l is not None and x is not None:
+                out[e.id] = (l, x)
+    return out
+
+
+def _allocations(S: Snips, var: str, ctors=("np.zeros", "np.ones")) -> List[Tuple[ast.AST, ast.AST]]:
+    """(statement, shape expression) of every `var = np.zeros(shape, ...)`."""
+    out = []
+    for c in ctors:
+        for st, e in S.find(f"V_arr = {c}(E_shape, REST, REST=ANY)", {"arr": var}):
+            out.append((st, e["shape"]))
+    out.sort(key=lambda x: x[0].lineno)
     return out
 
 
 def alloc_lists(fi: FunctionInfo, var: str) -> Optional[List[str]]:
-    """list attribute per axis of `var = np.zeros((len(self.L1), len(self.L2), ...))` (local aliases resolved)."""
-    alias: Dict[str, str] = {}
-    for n in fn_body_nodes(fi):
-        if isinstance(n, ast.Assign) and isinstance(n.targets[0], ast.Name) and isinstance(n.value, ast.Attribute) and n.value.attr in LISTS:
-            alias[n.targets[0].id] = n.value.attr
-    for n in fn_body_nodes(fi):
-        if isinstance(n, ast.Assign) and isinstance(n.targets[0], ast.Name) and n.targets[0].id == var and isinstance(n.value, ast.Call) \
-                and ast.unparse(n.value.func) in ("np.zeros", "np.ones") and n.value.args and isinstance(n.value.args[0], ast.Tuple):
-            out = []
-            for e in n.value.args[0].elts:
-                if isinstance(e, ast.Call) and isinstance(e.func, ast.Name) and e.func.id == "len" and e.args:
-                    a = e.args[0]
-                    if isinstance(a, ast.Attribute) and a.attr in LISTS:
-                        out.append(a.attr)
-                    elif isinstance(a, ast.Name) and a.id in alias:
-                        out.append(alias[a.id])
-                    else:
-                        out.append("?")
-                else:
-                    out.append("?")
-            return out
+    """list attribute per axis of `var = np.zeros((len(self.L1), len(self.L2), ...))` (local aliases and temporaries resolved)."""
+    S = Snips(fi)
+    for _, shape in _allocations(S, var):
+        shape = _resolve(S, shape)
+        if not isinstance(shape, ast.Tuple):
+            continue
+        out = []
+        for e in shape.elts:
+            en = S.m("len(E_l)", e)
+            out.append((_list_of(S, en["l"]) if en is not None else None) or "?")
+        return out
     return None
 
 
 def rule_store(ctx: Ctx, fi: FunctionInfo, what: str, dist_method: Optional[str], value_kind: str, axes_entities: Tuple[str, ...]):
     """TEN-4 for one array-building property.  axes_entities names the interface roles of the axes, e.g. ('s','a','ns')."""
+    S = Snips(fi)
     stores = [n for n in fn_body_nodes(fi) if isinstance(n, ast.Assign) and isinstance(n.targets[0], ast.Subscript)
               and isinstance(n.targets[0].value, ast.Name) and isinstance(n.targets[0].slice, ast.Tuple)]
     if not stores:
@@ -86,33 +159,13 @@ def rule_store(ctx: Ctx, fi: FunctionInfo, what: str, dist_method: Optional[str]
     st = stores[0]
     var = st.targets[0].value.id
     lists = alloc_lists(fi, var)
-    idx = [e.id if isinstance(e, ast.Name) else None for e in st.targets[0].slice.elts]
-    srcs = index_sources(fi, st)
-    # resolve map-based indices:  ooi = self.observation_index  -> observation_list
-    for k, (l, e) in list(srcs.items()):
-        if l.startswith("map:"):
-            m = l[4:]
-            for n in fn_body_nodes(fi):
-                if isinstance(n, ast.Assign) and isinstance(n.targets[0], ast.Name) and n.targets[0].id == m and isinstance(n.value, ast.Attribute):
-                    srcs[k] = ({"observation_index": "observation_list"}.get(n.value.attr, n.value.attr), e)
-    # inline index expressions like ooi[o]
-    ents: List[Optional[str]] = []
+    # each index, named by a temporary or written in place, is the position of an entity in a list
     got_lists: List[Optional[str]] = []
-    for e_ast, name in zip(st.targets[0].slice.elts, idx):
-        if name is not None and name in srcs:
-            got_lists.append(srcs[name][0])
-            ents.append(srcs[name][1])
-        elif isinstance(e_ast, ast.Subscript) and isinstance(e_ast.value, ast.Name) and isinstance(e_ast.slice, ast.Name):
-            m = e_ast.value.id
-            lst = None
-            for n in fn_body_nodes(fi):
-                if isinstance(n, ast.Assign) and isinstance(n.targets[0], ast.Name) and n.targets[0].id == m and isinstance(n.value, ast.Attribute):
-                    lst = {"observation_index": "observation_list"}.get(n.value.attr, n.value.attr)
-            got_lists.append(lst)
-            ents.append(e_ast.slice.id)
-        else:
-            got_lists.append(None)
-            ents.append(None)
+    ents: List[Optional[str]] = []
+    for e_ast in st.targets[0].slice.elts:
+        l, x = index_provenance(fi, S, st, e_ast)
+        got_lists.append(l)
+        ents.append(x)
     roles = ", ".join(axes_entities)
     inst = f"{what}: element store [{roles}] index provenance"
     if lists is None or None in got_lists or "?" in lists:
@@ -122,47 +175,52 @@ def rule_store(ctx: Ctx, fi: FunctionInfo, what: str, dist_method: Optional[str]
               f"axes {lists}", f"the array is allocated over {lists} but the store indexes it with positions from {got_lists}")
     # entities of the axes feed the value
     if dist_method is not None:
-        loops = [n for n in fn_body_nodes(fi) if isinstance(n, ast.For) and isinstance(n.iter, ast.Call) and isinstance(n.iter.func, ast.Attribute)
-                 and n.iter.func.attr == "items" and isinstance(n.iter.func.value, ast.Call) and dist_method in ast.unparse(n.iter.func.value.func)
-                 and any(st is x for x in ast.walk(n))]
+        loops = []
+        for n in _enclosing_loops(fi, st):
+            d = _items_call(S, n.iter)
+            if d is not None and dist_method in ast.unparse(d.func):
+                loops.append((n, d))
         if not loops:
             ctx.violation("TEN-4", fi, st, f"{what}: value comes from {dist_method}(...).items()", f"the store is not inside a loop over {dist_method}(...).items()")
             return
-        lp = loops[0]
-        call = lp.iter.func.value
-        cargs = [a.id if isinstance(a, ast.Name) else None for a in call.args]
-        key, val = [e.id for e in lp.target.elts] if isinstance(lp.target, ast.Tuple) else (None, None)
+        lp, call = loops[0]
+        cargs = [_entity(S, a) for a in call.args]
+        key, val = [e.id if isinstance(e, ast.Name) else None for e in lp.target.elts] if isinstance(lp.target, ast.Tuple) and len(lp.target.elts) == 2 else (None, None)
         want_call = ents[:len(cargs)]
         ctx.check(cargs == want_call and ents[len(cargs)] == key if len(ents) > len(cargs) else cargs == want_call, "TEN-4", fi, st,
                   f"{what}: axes ({roles}) are the arguments and key of {dist_method}(...).items()", "",
                   f"the store's axes correspond to entities ({', '.join(map(str, ents))}) but the distribution is {dist_method}({', '.join(map(str, cargs))}) with key `{key}`: "
                   f"a value is written at the position of a different entity than the one it was computed from")
         if value_kind == "prob":
-            ctx.check(isinstance(st.value, ast.Name) and st.value.id == val, "TEN-4", fi, st, f"{what}: stored value is the probability of that key", "",
+            ctx.check(_is_var(S, st.value, val), "TEN-4", fi, st, f"{what}: stored value is the probability of that key", "",
                       f"stored value `{norm(st.value)}` is not the probability `{val}` paired with the key")
         elif value_kind == "reward":
-            v = st.value
-            ok = isinstance(v, ast.Call) and isinstance(v.func, ast.Attribute) and v.func.attr == "reward" and \
-                [a.id if isinstance(a, ast.Name) else None for a in v.args] == ents
+            v = _resolve(S, st.value)
+            ok = isinstance(v, ast.Call) and isinstance(v.func, ast.Attribute) and v.func.attr == "reward" and not v.keywords and \
+                None not in ents and [_entity(S, a) for a in v.args] == ents
             ctx.check(ok, "TEN-4", fi, st, f"{what}: stored value is reward({roles}) of the written cell", "",
                       f"stored value `{norm(v)}` is not the reward of the (s, a, ns) whose cell is written")
     elif value_kind == "one":
-        ok = isinstance(st.value, ast.Constant) and st.value.value == 1
+        v = _resolve(S, st.value)
+        ok = isinstance(v, ast.Constant) and not isinstance(v.value, bool) and v.value == 1
         ctx.check(ok, "TEN-4", fi, st, f"{what}: availability entries are 1", "", f"stored value is {norm(st.value)}")
     # the action loop enumerates the row state's own actions
-    al = [n for n in fn_body_nodes(fi) if isinstance(n, ast.For) and isinstance(n.iter, ast.Call) and "actions" in ast.unparse(n.iter.func)
-          and any(st is x for x in ast.walk(n))]
+    al = []
+    for n in _enclosing_loops(fi, st):
+        it = _resolve(S, n.iter)
+        if isinstance(it, ast.Call) and "actions" in ast.unparse(it.func):
+            al.append((n, it))
     if al and ents and ents[0] is not None and "a" in axes_entities and axes_entities[0] == "s":
         a_ent = ents[axes_entities.index("a")]
-        ok = isinstance(al[0].target, ast.Name) and al[0].target.id == a_ent and [ast.unparse(x) for x in al[0].iter.args] == [ents[0]]
-        ctx.check(ok, "TEN-4", fi, al[0], f"{what}: actions enumerated are the row state's own", "", f"actions come from `{norm(al[0].iter)}`, not from the row state `{ents[0]}`")
+        lp_a, it = al[0]
+        ok = isinstance(lp_a.target, ast.Name) and lp_a.target.id == a_ent and not it.keywords and [_entity(S, x) for x in it.args] == [ents[0]]
+        ctx.check(ok, "TEN-4", fi, lp_a, f"{what}: actions enumerated are the row state's own", "", f"actions come from `{norm(it)}`, not from the row state `{ents[0]}`")
     # zero initialisation for everything else
-    zeros = [n for n in fn_body_nodes(fi) if isinstance(n, ast.Assign) and isinstance(n.targets[0], ast.Name) and n.targets[0].id == var
-             and isinstance(n.value, ast.Call) and ast.unparse(n.value.func) == "np.zeros"]
+    zeros = [z for z, _ in _allocations(S, var, ("np.zeros",))]
     ctx.check(bool(zeros), "TEN-4", fi, zeros[0] if zeros else fi.node, f"{what}: all other cells are zero-initialised", "", "the array is not zero-initialised")
     # returned array is the one filled
     rets = [n for n in fn_body_nodes(fi) if isinstance(n, ast.Return)]
-    ctx.check(bool(rets) and ast.unparse(rets[0].value) == var, "TEN-4", fi, rets[0] if rets else fi.node, f"{what}: returns the filled array", "", "a different array is returned")
+    ctx.check(bool(rets) and rets[0].value is not None and _is_var(S, rets[0].value, var), "TEN-4", fi, rets[0] if rets else fi.node, f"{what}: returns the filled array", "", "a different array is returned")
 
 
 def local_list_aliases(fi: FunctionInfo) -> Dict[str, str]:
@@ -199,16 +257,18 @@ def rule_zero_prob(ctx: Ctx, fns: List[FunctionInfo], list_attr: str, dist_names
         cfg = cfg_of(fi)
         top_params = set(fi.param_names)
         aliases, maps = local_list_aliases(fi), local_index_maps(fi)
+        S = Snips(fi)
         k_fn = 0
         for lp in fn_body_nodes(fi):
-            if not (isinstance(lp, ast.For) and isinstance(lp.iter, ast.Call) and isinstance(lp.iter.func, ast.Attribute) and lp.iter.func.attr == "items"
-                    and isinstance(lp.iter.func.value, ast.Call) and any(d in ast.unparse(lp.iter.func.value.func) for d in dist_names)
-                    and isinstance(lp.target, ast.Tuple) and len(lp.target.elts) == 2):
+            if not (isinstance(lp, ast.For) and isinstance(lp.target, ast.Tuple) and len(lp.target.elts) == 2):
+                continue
+            dcall = _items_call(S, lp.iter)         # the distribution call, written in the loop header or named by a temporary
+            if dcall is None or not any(d in ast.unparse(dcall.func) for d in dist_names):
                 continue
             key, prob = [e.id if isinstance(e, ast.Name) else None for e in lp.target.elts]
             lookups = []
             for c in ast.walk(lp):
-                if isinstance(c, ast.Call) and isinstance(c.func, ast.Attribute) and c.func.attr == "index" and c.args and ast.unparse(c.args[0]) == key:
+                if isinstance(c, ast.Call) and isinstance(c.func, ast.Attribute) and c.func.attr == "index" and c.args and _is_var(S, c.args[0], key):
                     # receiver: the list attribute itself, or a local bound to it
                     recv = c.func.value
                     rtxt = aliases[recv.id] if isinstance(recv, ast.Name) and recv.id in aliases else ast.unparse(recv)
@@ -258,13 +318,17 @@ def rule_reachability(ctx: Ctx):
                    and isinstance(n.value, ast.SetComp) and S.m("self.initial_state_dist().items()", n.value.generators[0].iter) is not None]
         seed = anyseed[0].targets[0].id if anyseed else None
     loops = [n for n in fn_body_nodes(f) if isinstance(n, ast.For)]
-    succ = [l for l in loops if "next_state_dist" in ast.unparse(l.iter)]
+    # the successor loop: its iterable (written in the header or named by a temporary) reads next_state_dist
+    succ = []
+    for l in loops:
+        it_l, call_l = _resolve(S, l.iter), _items_call(S, l.iter)
+        if "next_state_dist" in ast.unparse(it_l) or (call_l is not None and "next_state_dist" in ast.unparse(call_l)):
+            succ.append((l, it_l, call_l))
     if not succ:
         ctx.violation("REACH-1", f, f.node, "successors enumerated from next_state_dist", "the closure does not enumerate next_state_dist")
         return
-    lp = succ[0]
-    it = lp.iter
-    is_items = isinstance(it, ast.Call) and isinstance(it.func, ast.Attribute) and it.func.attr == "items" and isinstance(lp.target, ast.Tuple)
+    lp, it, call = succ[0]
+    is_items = call is not None and isinstance(lp.target, ast.Tuple) and len(lp.target.elts) == 2 and all(isinstance(x, ast.Name) for x in lp.target.elts)
     if not is_items:
         ctx.violation("REACH-1", f, lp, "successors are filtered by positive probability",
                       f"the closure iterates `{norm(it)}`: successors listed with probability 0 (e.g. members of .support) are added to the reachable set")
@@ -275,11 +339,11 @@ def rule_reachability(ctx: Ctx):
         ok = bool(skip) and all(lp.body.index(skip[0]) < min(i for i, b in enumerate(lp.body) if any(a is x for x in ast.walk(b))) for a in adds)
         ctx.check(ok, "REACH-1", f, lp, "zero-probability successors are skipped before anything is added", "",
                   "zero-probability successors are not skipped before being added to the reachable set")
-        call = it.func.value
         outer = [l for l in loops if any(lp is x for x in ast.walk(l)) and l is not lp]
-        ok = bool(outer) and svar is not None and "actions" in ast.unparse(outer[0].iter.func if isinstance(outer[0].iter, ast.Call) else outer[0].iter) \
-            and isinstance(outer[0].iter, ast.Call) and [ast.unparse(a) for a in outer[0].iter.args] == [svar] \
-            and [ast.unparse(a) for a in call.args] == [svar, outer[0].target.id if isinstance(outer[0].target, ast.Name) else "?"]
+        oit = _resolve(S, outer[0].iter) if outer else None
+        ok = bool(outer) and svar is not None and isinstance(oit, ast.Call) and "actions" in ast.unparse(oit.func) \
+            and [_entity(S, a) for a in oit.args] == [svar] \
+            and [_entity(S, a) for a in call.args] == [svar, outer[0].target.id if isinstance(outer[0].target, ast.Name) else "?"]
         ctx.check(ok, "REACH-2", f, lp, "expands next_state_dist(s, a) for every a in actions(s) of the popped state", "", "the expansion does not cover exactly the popped state's own actions")
         env = {"ns": key, "visited": visited, "frontier": frontier}
         # the result set is a different object from the worklist; successors are added to each by `<set>.add(<key>)`
@@ -394,6 +458,7 @@ def rule_from_matrices(ctx: Ctx):
     for nf in f.nested.values():
         params = nf.positional_params
         role_nf = closure_role.get(nf.name, nf.name)
+        Sn = Snips(nf)
         for sub in ast.walk(nf.node):
             if isinstance(sub, ast.Subscript) and isinstance(sub.value, ast.Name) and sub.value.id in want_axis and isinstance(sub.ctx, ast.Load):
                 arr = sub.value.id
@@ -401,6 +466,7 @@ def rule_from_matrices(ctx: Ctx):
                 for k, it in enumerate(items):
                     if isinstance(it, ast.Slice):
                         continue
+                    it = _resolve(Sn, it)           # the index, written in place or named by a temporary
                     lst = ent = None
                     if isinstance(it, ast.Subscript) and isinstance(it.value, ast.Name) and it.value.id in maps:
                         lst, ent = maps[it.value.id], ast.unparse(it.slice)
@@ -468,9 +534,10 @@ def rule_quick(ctx: Ctx):
             raise AnalysisError(f"QuickMDP.{name} vanished")
         params = m.positional_params[1:]
         rets = [n for n in ast.walk(m.node) if isinstance(n, ast.Return)]
-        ok = len(rets) == 1 and isinstance(rets[0].value, ast.Call) and ast.unparse(rets[0].value.func) == f"self._{name}" \
-            and [ast.unparse(a) for a in rets[0].value.args] == params
-        ctx.check(ok, "QK-1", m, m.node, f"QuickMDP.{name} forwards ({', '.join(params)}) in order to self._{name}", "", f"`{norm(rets[0].value) if rets else '?'}` does not forward the parameters in order")
+        Sm = Snips(m)
+        rv = _resolve(Sm, rets[0].value) if len(rets) == 1 and rets[0].value is not None else None      # returned call, in place or via a temporary
+        ok = isinstance(rv, ast.Call) and ast.unparse(rv.func) == f"self._{name}" and [_entity(Sm, a) for a in rv.args] == params
+        ctx.check(ok, "QK-1", m, m.node, f"QuickMDP.{name} forwards ({', '.join(params)}) in order to self._{name}", "", f"`{norm(rv) if rv is not None else '?'}` does not forward the parameters in order")
         stores = [n for n in ast.walk(init.node) if isinstance(n, ast.Assign) and ast.unparse(n.targets[0]) == f"self._{name}"]
         ok = bool(stores) and all(name in names_in(s.value) or (name == "next_state_dist" and "next_state" in names_in(s.value))
                                   or (name == "initial_state_dist" and "initial_state" in names_in(s.value)) for s in stores)
